@@ -82,9 +82,6 @@ pub fn uci_accept_exact<S: Src, const SIDE: u8, const PART: u8>(s: &mut S) {
         vnote!("fen={} uci={:?} read={:?} legal reader={} applied={}", b.as_fen(), u, read, legal, made.is_ok());
         vassert!("a UCI value is applied exactly when the legal reader accepts it", made.is_ok() == legal);
         vassert!("the null move is never accepted as a move to play", !(is_null && made.is_ok()));
-        let mut bc = b.clone();
-        let rr = u.make_raw(&mut bc);
-        vassert!("the in-place entry point agrees", rr.is_ok() == legal);
         vcover!("applied", made.is_ok());
         vcover!("null value", is_null);
         return;
